@@ -13,6 +13,9 @@ Correspondence (implementation = current /repo tree, model = `Eval vm_compute` i
   switch      one with statement, decorated (and, independently, used) under every state of the global switch:
               ENABLE_PEDANTIC unset / "0" / "1", disable_pedantic() / enable_pedantic() called - the property text makes
               no exception for the switch
+  method      the decorated generator function as an attribute of a class (instance method reached through the instance, bound
+              once, Class.m(obj), a subclass instance; below @classmethod / @staticmethod): the receiver and the caller's own
+              arguments must arrive unchanged - implementation side only, judged by the specification
   interpreter the decoration scenarios and a sample of the with statements once more in child interpreters started with
               -O, -OO, PYTHONOPTIMIZE=1/2 (assert statements stripped) and with ENABLE_PEDANTIC=0/1 already in the
               environment of the interpreter
@@ -50,6 +53,16 @@ STYLES = ['nested', 'multi']
 # the circumstances of a decoration (harness/w_ctx.py): state of the global switch, set in the process ...
 SWITCHES = ['unset', '0', '1', 'disabled', 'enabled']
 # ... and the interpreter: [optimize level, given by flag or by PYTHONOPTIMIZE, ENABLE_PEDANTIC in its environment]
+# ... and how the caller reaches the decorated generator function: directly, or as an attribute of a class (the decorator applied
+# inside a class body).  "Arguments are forwarded unchanged" then includes the receiver: the instance (the class for a
+# classmethod) comes first, followed by the caller's own arguments.  Implementation side only (harness/w_ctx.py bind_form); the
+# model has no classes: the demanded journal is the one of the plain function.
+BINDS = ['function', 'instance', 'instance_bound_once', 'class_call', 'classmethod', 'classmethod_on_instance', 'staticmethod',
+         'subclass_instance']
+BIND_WORDS = {'instance': 'an instance method called through the instance', 'instance_bound_once': 'an instance method, bound once and then called',
+              'class_call': 'an instance method called as Class.method(instance, ...)', 'classmethod': 'below @classmethod, called through the class',
+              'classmethod_on_instance': 'below @classmethod, called through an instance', 'staticmethod': 'below @staticmethod, called through an instance',
+              'subclass_instance': 'an instance method called through an instance of a subclass'}
 INTERPS = [[1, 'flag', None], [2, 'flag', None], [1, 'env', None], [2, 'env', None], [0, 'flag', '0'], [0, 'flag', '1'],
            [2, 'flag', '0']]
 
@@ -71,6 +84,8 @@ def circumstances(c):
     """in words, for the report; '' for the defaults"""
     out = []
     sw = c.get('switch', 'inherit')
+    if c.get('bind', 'function') != 'function':
+        out.append('the decorated generator function is ' + BIND_WORDS.get(c['bind'], str(c['bind'])))
     if sw not in ('inherit', 'unset'):
         out.append({'disabled': 'decorated after disable_pedantic()', 'enabled': 'decorated after enable_pedantic()'}.get(sw)
                    or f'decorated while ENABLE_PEDANTIC={sw}')
@@ -266,7 +281,8 @@ def mk_use(rng, ids, setup, cleanup):
 def mk_seq(rng, var, items, stream, switch='unset', switch_use=None, interp=None):
     c = {'kind': 'seq', 'stream': stream, 'var': var, 'items': items, 'style': rng.choice(STYLES),
          'shared': rng.random() < 0.5, 'suspend': rng.random() < 0.5, 'early': rng.choice(EARLY),
-         'switch': switch, 'switch_use': switch if switch_use is None else switch_use}
+         'switch': switch, 'switch_use': switch if switch_use is None else switch_use,
+         'bind': 'function' if rng.random() < 0.65 else rng.choice(BINDS[1:])}
     if interp:
         c['interp'] = interp
     return c
@@ -388,6 +404,35 @@ def gen_switch(rng, tier, scale):
     return cases
 
 
+def gen_bound(rng, tier, scale):
+    """the decorated generator function as an attribute of a class: every way of reaching it x every shape of the caller's
+    arguments x {sync, async} x one decorated function shared by all uses or not, one with statement with a few body / cleanup
+    outcomes; then two nested uses and two statements after one another (the same method entered twice)"""
+    cases = []
+    for var in ('sync', 'async'):
+        for bind in BINDS[1:]:
+            for a in range(7):
+                for b, cl in ((['normal'], ['ok']), (['raise', [0, 1]], ['ok']), (['early'], ['raise', [0, 20]])):
+                    ids = Ids()
+                    u = mk_use(rng, ids, ['ok'], cl)
+                    u['args'] = a
+                    c = mk_seq(rng, var, [{'uses': [u], 'body': b}], 'method')
+                    c['bind'] = bind
+                    cases.append(c)
+            for st in (['raise', [0, 20]], ['raise', [1]], ['return']):
+                c = mk_seq(rng, var, [{'uses': [mk_use(rng, Ids(), st, ['ok'])], 'body': ['normal']}], 'method')
+                c['bind'] = bind
+                cases.append(c)
+            for _ in range((3 if tier == 'quick' else 30) * scale):
+                ids = Ids()
+                items = [{'uses': [rand_use(rng, ids) for _ in range(rng.choice([1, 2, 2, 3]))], 'body': rand_body(rng)}
+                         for _ in range(rng.choice([1, 2, 3]))]
+                c = mk_seq(rng, var, items, 'method', *rand_switch(rng))
+                c['bind'] = bind
+                cases.append(c)
+    return cases
+
+
 def gen_interp(rng, tier, scale):
     """the decoration scenarios, and a sample of the with statements, in child interpreters: assert statements stripped
     (-O, -OO, PYTHONOPTIMIZE) and/or the switch already in the environment the interpreter starts with"""
@@ -490,7 +535,7 @@ def gen_plain(rng, tier, scale):
 
 def gen_cases(rng, tier, scale):
     return (gen_product(rng, tier, scale) + gen_nested(rng, tier, scale) + gen_repeated(rng, tier, scale) + gen_deco()
-            + gen_switch(rng, tier, scale) + gen_interp(rng, tier, scale)
+            + gen_switch(rng, tier, scale) + gen_bound(rng, tier, scale) + gen_interp(rng, tier, scale)
             + gen_protocol(rng, tier, scale) + gen_plain(rng, tier, scale))
 
 
@@ -508,7 +553,8 @@ def size_of(c):
 def odd_of(c):
     """how far the circumstances are from the defaults (a child interpreter counts more than a switch state)"""
     sw = c.get('switch', 'inherit')
-    return (4 * bool(c.get('interp')) + 2 * (sw not in ('inherit', 'unset')) + (c.get('switch_use', sw) != sw))
+    return (8 * bool(c.get('interp')) + 4 * (sw not in ('inherit', 'unset')) + 2 * (c.get('switch_use', sw) != sw)
+            + (c.get('bind', 'function') != 'function'))
 
 
 # ---- judging ------------------------------------------------------------------------------------------------
@@ -597,7 +643,7 @@ def run(tier, seed, replay=None):
     hist = {'setup': {}, 'body': {}, 'cleanup': {}, 'variant': {}, 'depth': {}, 'statements': {}, 'style': {}, 'early': {},
             'leaves': {}, 'decoration': {}, 'stream': {}, 'classes_body': {}, 'classes_cleanup': {}, 'classes_setup': {},
             'suspending_async': 0, 'shared_decorated_function': 0, 'out_of_domain_generators': 0,
-            'switch_at_decoration': {}, 'switch_at_use_differs': 0, 'interpreter': {}}
+            'switch_at_decoration': {}, 'switch_at_use_differs': 0, 'interpreter': {}, 'reached_as': {}}
 
     def bump(d, k):
         d[k] = d.get(k, 0) + 1
@@ -614,6 +660,7 @@ def run(tier, seed, replay=None):
                  ('-' + 'O' * it[0] if it[0] and it[1] == 'flag' else f'PYTHONOPTIMIZE={it[0]}' if it[0] else 'no -O')
                  + (f', ENABLE_PEDANTIC={it[2]} in its environment' if it[2] is not None else ''))
         if c['kind'] == 'seq':
+            bump(hist['reached_as'], c.get('bind', 'function'))
             hist['switch_at_use_differs'] += int(c.get('switch_use', c.get('switch')) != c.get('switch'))
             bump(hist['statements'], len(c['items']))
             bump(hist['style'], c.get('style', 'nested'))
@@ -656,7 +703,7 @@ def run(tier, seed, replay=None):
             disagreements.setdefault(stream, []).append({'case': c, 'impl': i, 'model': m, 'what': what})
     # smallest failing input first: fewest statements, fewest generators, shortest class paths, sync before async
     ck.violations.sort(key=lambda v: size_of(v['case']))
-    for stream in ('with', 'nested', 'repeated', 'decoration', 'shape', 'switch', 'interpreter', 'generator', 'contextlib'):
+    for stream in ('with', 'nested', 'repeated', 'decoration', 'shape', 'switch', 'method', 'interpreter', 'generator', 'contextlib'):
         ds = sorted(disagreements.get(stream, []), key=lambda d: size_of(d['case']))
         n_stream = hist['stream'].get(stream, 0)
         if n_stream or ds:
@@ -678,13 +725,17 @@ def run(tier, seed, replay=None):
         'state of ENABLE_PEDANTIC (at decoration, during use) and under -O / -OO.  In the model the switch enters as the value of is_enabled() '
         '(true for unset / "1"), -O as "assert statements do nothing"; the state of the switch during use and the way the interpreter got its mode '
         '(flag, PYTHONOPTIMIZE, environment of the process) exist on the implementation side only and are judged by the specification directly',
+        'the way the decorated generator function is reached (plain function, instance method, classmethod, staticmethod ...) exists on the implementation side only: '
+        'the generated generator checks that its first argument IS the receiver and the rest are the caller\'s own arguments; the demanded journal is that of the plain function',
     ]
     return ck.finish(
         rule='with: full product {setup ok} x body {normal, return, break, continue, raise each of 19 classes} x cleanup {ok, second yield, raise each of 19 classes} '
              'x {sync, async} plus setup {no yield, raise each of 19 classes} x bodies x cleanups; nested: depth-2 product over 7 representative classes plus random depth 2..5; '
              'repeated: 2..8 statements on one decorated function; decoration: 4 kinds of def x 6 forms x 2 decorators x 5 switch states; '
              'switch: {4 non-default switch states at decoration} x body {normal, early, raise each of 19 classes} x cleanup {ok, ValueError, StopIteration} x {sync, async}, '
-             'failing setups, and default-at-decoration x 4 states during use; interpreter: 7 kinds of child interpreter (-O, -OO, PYTHONOPTIMIZE=1/2, ENABLE_PEDANTIC=0/1 in '
+             'failing setups, and default-at-decoration x 4 states during use; method: the decorated generator function as attribute of a class - '
+             '{instance method via instance / bound once / Class.m(obj) / subclass instance, classmethod via class / instance, staticmethod} x 7 argument shapes x '
+             '3 body/cleanup outcomes x {sync, async}, failing setups, random nested/repeated (35% of all other with-statement cases draw one of these forms too); interpreter: 7 kinds of child interpreter (-O, -OO, PYTHONOPTIMIZE=1/2, ENABLE_PEDANTIC=0/1 in '
              'the environment, -OO with ENABLE_PEDANTIC=0) x (all decoration cases + 36 with statements + random nested/repeated); generator/contextlib: random behaviour trees; '
              'distinct = the whole case; non-trivial = at least one generator whose setup succeeds (body runs inside a with statement)',
         checker_cmd='make -C coq Props/C16.vo && coqc -Q coq PV coq/Props/C16.v (Print Assumptions under every theorem)',
